@@ -272,6 +272,11 @@ func (self *Compiler) compileProgram(
 			// self.currFn = EntryPointFunctionIdent
 			// self.insert(newOneStringInstruction(Opcode_Call_Imm, mangledMain), mainFnSpan)
 			// self.insert(newPrimitiveInstruction(Opcode_Return), mainFnSpan)
+		} else {
+			// The init function of every other module is called by the entry module's init function:
+			// it must exist (a module without globals would otherwise have no instruction at all) and return.
+			self.currFn = InitFunctionIdent
+			self.insert(newPrimitiveInstruction(Opcode_Return), mainFnSpan)
 		}
 	}
 
